@@ -86,7 +86,7 @@ func c13Judge(r *verifkit.R, phase string, ci int, res *convResult) {
 	}
 	r.Add("cases_"+res.Class, 1)
 	r.Eval(res.Class+"|"+res.Desc+"|"+res.TraceHash(), far > 0)
-	if vio == 0 && far > 0 && r.NeedSample() {
+	if far > 0 && r.NeedSample() {
 		var tables []string
 		for x := 0; x < s.N; x++ {
 			for _, l := range s.Learned(x) {
